@@ -472,16 +472,21 @@ Definition c08_no_second_new (es : list event) : bool := scan ns_step [] es.
 Record wb_st := WbSt { wb_w : N; wb_fl : list N; wb_spur : bool }.
 Definition wb_step (s : wb_st) (e : event) : option wb_st :=
   match e with
-  | ENewConn => Some (WbSt 0 [] false)
-  | ESetup _ (SOk _ _ w _ _) => Some (WbSt w (wb_fl s) (wb_spur s))
+  | ENewConn => Some (WbSt 0 [] (wb_spur s))              (* a peer that misbehaved stays excused for the session *)
+  | ESetup _ (SOk _ fresh w _ _) => Some (WbSt w (wb_fl s) (if fresh then false else wb_spur s))
   | ETx _ (Publish _ m id) _ true =>
       if m_qos m =? 0 then Some s
       else
         let fl := if nmem id (wb_fl s) then wb_fl s else id :: wb_fl s in
         if wb_spur s || (N.of_nat (length fl) <=? wb_w s) then Some (WbSt (wb_w s) fl (wb_spur s)) else None
+  | ETx _ (Pubrel id) _ true =>                            (* a re-sent PUBREL is an unacknowledged QoS 2 message too *)
+      let fl := if nmem id (wb_fl s) then wb_fl s else id :: wb_fl s in
+      if wb_spur s || (N.of_nat (length fl) <=? wb_w s) then Some (WbSt (wb_w s) fl (wb_spur s)) else None
   | ERx _ (Puback id) | ERx _ (Pubcomp id) =>
       if nmem id (wb_fl s) then Some (WbSt (wb_w s) (nremove1 id (wb_fl s)) (wb_spur s))
       else Some (WbSt (wb_w s) (wb_fl s) true)
+  | ERx _ (Pubrec id) =>                                   (* a PUBREC for an id not in flight is spurious too *)
+      if nmem id (wb_fl s) then Some s else Some (WbSt (wb_w s) (wb_fl s) true)
   | _ => Some s
   end.
 Definition c16_bound (es : list event) : bool := scan wb_step (WbSt 0 [] false) es.
